@@ -12,14 +12,14 @@ ENTRY = dict(
                 "are N tokens (the code counts tokens, not incoming flows)"),
     technique="Lean 4 proof (induction over arrivals) + exhaustive differential against the real gateway",
     lean_modules=["Bpmn.Props.C03", "Bpmn.Props.EngineCurrent"],
-    families=["c03fn", "c03"],
+    families=["c03fn", "c03", "c03burst"],
     exhaustive=True,
     facts_from=["Engine"],
     rule=("c03fn: distributeFlows for all (waiting, outgoing) in 0..12 x 0..12 (thorough 0..40) compared with the model and "
           "checked for partition/completions; c03: process start -> loop(fork 1->N, N tasks, join N->M, M tasks, sync) run on "
           "the real engine for all N, M in 1..4, arrival permutations (quick: all for N<=3, one third for N=4; thorough: "
           "all), 1..3 activations; after every answer the requests/completions observed at quiescence must equal the "
-          "model's; non-trivial = the case ran to the end with at least one release; distinct by (N, M, permutation, activations)"),
+          "model's; c03burst: k = 2..4 activations of a 2->m join back to back (fork 1->2k through two exclusive merges, no task in between), half of the cases under schedule perturbation; non-trivial = the case ran to the end with at least one release; distinct by (N, M, permutation, activations)"),
     trusted_base=TB_COMMON + ["whole-process quiescence detection via runtime.Stack goroutine states"],
     assumptions=["tokens of one activation arrive on distinct incoming flows (block-structured use)"],
 )
